@@ -210,7 +210,7 @@ Proof.
     assert (HF : Forall2 (tok_acc O (build_trie O T) text) toks (map (grp O text) toks)).
     { pose proof (tokens_accounted O (build_trie O T) (build_trie_wf O T) text) as Ha. fold toks in Ha.
       clear -Ha. induction toks as [|t l IH]; [constructor|]. inversion Ha; subst. constructor; [assumption | apply IH; assumption]. }
-    destruct (build_unknown_acc O sp_is_space T text toks _ [] [] r HF (pending_nil O text) Eb) as [gs1 [F1 E1]].
+    destruct (build_unknown_acc O sp_is_space T text toks _ [] [] r HF (pending_nil O T text) Eb) as [gs1 [F1 E1]].
     rewrite (drop_blank_id O T text r gs1 F1) in H.
     assert (F1v : Forall2 (vtok_acc O text (kw_acc O) (sym_acc O T text)) r gs1).
     { clear -F1. induction F1; constructor; [apply tok_acc1_vtok; assumption | assumption]. }
